@@ -114,6 +114,15 @@ ArrOpenRep(pre, x) == Tok(<<91>> \o Concat([i \in 1..Len(pre) |-> pre[i].txt \o 
 AnyV == [t |-> "any", v |-> <<>>]
 ArrOpenAny(pre, x) == Tok(<<91>> \o Concat([i \in 1..Len(pre) |-> pre[i].txt \o <<32>>]) \o x.txt \o <<32, 46, 46, 46, 93>>,
                           << [t |-> "a", el |-> Concat([i \in 1..Len(pre) |-> pre[i].val]) \o << [t |-> "...", v |-> <<AnyV, AnyV, AnyV>>] >>] >>)
+\* doubles with and without the parenthesised exact value side by side - in an array, in a range, in an open-ended range
+DPlain(m, k) == Tok(DecDyadic(m, k) \o <<100>>, <<DV(m, k)>>)
+DExact(m, k) == Tok(DecDyadic(m, k) \o <<100, 32, 40>> \o HexFloat(m, k) \o <<41>>, <<DV(m, k)>>)
+DoubleMixToks ==
+  { ArrTok(<<DPlain(3, 1), DExact(5, 1)>>, <<>>), ArrTok(<<DExact(3, 1), DPlain(5, 1)>>, <<32>>),
+    [RngTok(DPlain(2, 1).txt \o <<32, 46, 46, 46, 32>> \o DExact(6, 1).txt, <<DV(2, 1), DV(4, 1), DV(6, 1)>>) EXCEPT !.rng = TRUE],                    \* 1.0d ... 3.0d (0x6p-1)
+    RngTok(DPlain(1, 1).txt \o <<32>> \o DExact(2, 1).txt \o <<32, 46, 46, 46, 32>> \o DPlain(5, 1).txt, <<DV(1, 1), DV(2, 1), DV(3, 1), DV(4, 1), DV(5, 1)>>),   \* 0.5d 1.0d (0x2p-1) ... 2.5d
+    Tok(<<91>> \o DPlain(1, 1).txt \o <<32>> \o DExact(2, 1).txt \o <<32, 46, 46, 46, 93>>,
+        << [t |-> "a", el |-> <<DV(1, 1), [t |-> "...", v |-> <<DV(2, 1), DV(3, 1), DV(4, 1)>>]>>] >>) }                                                   \* [0.5d 1.0d (0x2p-1) ...]
 \* separators: " ", "  ", newline, " % c\n", newline + indentation
 Seps == { <<32>>, <<32, 32>>, <<10>>, <<32, 37, 32, 99, 10>>, <<10, 32, 32, 32, 32>>,
           <<32, 37, 32, 99, 10, 32, 32>>,                       \* a comment, then an indented next line
